@@ -1055,6 +1055,63 @@ func c19StructuredDecode(cases *verifx.Cases) {
 	_ = n
 }
 
+// c19InputRequired: results of multi round-trip calls.  For each of the three result types that can
+// carry input requests, and for InputRequests nil / empty-but-present / one entry, with the result
+// marked input_required or complete: encoding and decoding again yields the same value (an empty
+// map is the documented way to say "come back later" and must not turn into "nothing").
+func c19InputRequired(cases *verifx.Cases) {
+	type result interface {
+		NeedsInput() bool
+	}
+	maps := map[string]InputRequestMap{"nil": nil, "empty": {}, "one": {"k": &ListRootsParams{}}}
+	for _, typ := range []string{"CallToolResult", "GetPromptResult", "ReadResourceResult"} {
+		for _, mname := range []string{"nil", "empty", "one"} {
+			for _, rt := range []resultType{resultTypeInputRequired, resultTypeComplete} {
+				idx, mine := cases.Next()
+				if !mine {
+					continue
+				}
+				m := maps[mname]
+				var v, back any
+				var gotMap func() InputRequestMap
+				switch typ {
+				case "CallToolResult":
+					x, y := &CallToolResult{Content: []Content{}, InputRequests: m}, &CallToolResult{}
+					x.setResultType(rt)
+					v, back, gotMap = x, y, func() InputRequestMap { return y.InputRequests }
+				case "GetPromptResult":
+					x, y := &GetPromptResult{Messages: []*PromptMessage{}, InputRequests: m}, &GetPromptResult{}
+					x.setResultType(rt)
+					v, back, gotMap = x, y, func() InputRequestMap { return y.InputRequests }
+				case "ReadResourceResult":
+					x, y := &ReadResourceResult{Contents: []*ResourceContents{}, InputRequests: m}, &ReadResourceResult{}
+					x.setResultType(rt)
+					v, back, gotMap = x, y, func() InputRequestMap { return y.InputRequests }
+				}
+				desc := fmt.Sprintf("%s inputRequests=%s resultType=%s", typ, mname, rt)
+				data, err := json.Marshal(v)
+				if err == nil {
+					err = json.Unmarshal(data, back)
+				}
+				got := InputRequestMap(nil)
+				if err == nil {
+					got = gotMap()
+				}
+				switch {
+				case err != nil:
+					cases.Violate(idx, "c19 input-required roundtrip-error "+typ, fmt.Sprintf("%v [%s]", err, desc), 2)
+				case (m == nil) != (got == nil) || len(m) != len(got):
+					cases.Violate(idx, "c19 input-required map-changed "+typ, fmt.Sprintf("encoded as %s; InputRequests came back as %d entries (nil: %v), sent %d entries (nil: %v) [%s]", data, len(got), got == nil, len(m), m == nil, desc), 2)
+				case back.(result).NeedsInput() != (rt == resultTypeInputRequired):
+					cases.Violate(idx, "c19 input-required result-type-changed "+typ, fmt.Sprintf("encoded as %s; NeedsInput came back %v [%s]", data, back.(result).NeedsInput(), desc), 2)
+				default:
+					cases.Record(idx, "input-required roundtrip ok", 2, func() string { return desc })
+				}
+			}
+		}
+	}
+}
+
 func c19Fuzz(env *verifx.Env, res *verifx.Result, maxLen int) {
 	cases := env.NewCases(res, "all-byte-strings-no-panic")
 	cases.NoMark = true
@@ -1145,6 +1202,7 @@ func TestVerifC19(t *testing.T) {
 	c19CheckContents(cc)
 	c19WireRequired(cc)
 	c19CaseSensitivity(cc)
+	c19InputRequired(cc)
 	c19StructuredDecode(env.NewCases(res, "structured-documents-no-panic"))
 	c19Fuzz(env, res, env.Pick(5, 6))
 	_ = io.EOF
